@@ -29,7 +29,11 @@ def shape_message(shape, i=0):
         return 'PKG', {'MTI': '1644'}
     if shape == 'typed':
         return 'PKG', {'MTI': '1240', 'DE2': '5444330000001111', 'DE3': '000000', 'DE4': 0, 'DE5': 999999999999,
-                       'DE12': datetime.datetime(2068, 12, 31, 23, 59, 59), 'DE26': 5411, 'DE71': i + 1}
+                       # by turns: the end of the two-digit window, 02:30 on the second Sunday of March 2021 / 2027
+                       # (an hour a US-rule daylight-saving wall clock skips), 01:30 on the first Sunday of November
+                       'DE12': [datetime.datetime(2068, 12, 31, 23, 59, 59), datetime.datetime(2021, 3, 14, 2, 30, 0),
+                                datetime.datetime(2027, 3, 14, 2, 59, 59), datetime.datetime(2021, 11, 7, 1, 30, 0)][i % 4],
+                       'DE26': 5411, 'DE71': i + 1}
     if shape == 'pds_small':
         return 'PKG', {'MTI': '1240', 'DE2': '5444330000001111', 'PDS0023': 'CT6', 'PDS0052': '', 'PDS0158': 'X' * 12}
     if shape == 'pds_multi':
